@@ -210,7 +210,7 @@ Section Codec.
     bytes_ok ver -> bytes_ok (enc m) -> bytes_ok rest ->
     chunks_ok cs -> concat cs = frame ver (enc m) ++ rest -> zlen (concat cs) < 2 ^ 63 ->
     term_ok t (enc m) rest ->
-    (length (concat cs) + 2 <= fuel)%nat ->
+    (length cs + length (concat cs) + 2 <= fuel)%nat ->
     exists cs',
       Unmarshal dec cread grow fuel (cs, t)
         = Some (32 + zlen (enc m), ver, None, Some m, (cs', t))
@@ -234,7 +234,7 @@ Section Codec.
     bytes_ok ver -> bytes_ok (enc m) -> bytes_ok rest ->
     chunks_ok cs -> concat cs = frame ver (enc m) ++ rest -> zlen (concat cs) < 2 ^ 63 ->
     term_ok t (enc m) rest ->
-    (length (concat cs) + 2 <= fuel)%nat ->
+    (length cs + length (concat cs) + 2 <= fuel)%nat ->
     exists cs',
       Unmarshal dec cread grow fuel (cs, t)
         = Some (32 + zlen (enc m), strip_nul ver, None, Some m, (cs', t))
@@ -256,7 +256,7 @@ Section Codec.
     bytes_ok ver -> bytes_ok (enc m) -> zlen (enc m) < 2 ^ 63 - 32 ->
     0 <= k < 32 + zlen (enc m) ->
     chunks_ok cs -> concat cs = firstn (Z.to_nat k) (frame ver (enc m)) ->
-    (length (concat cs) + 2 <= fuel)%nat ->
+    (length cs + length (concat cs) + 2 <= fuel)%nat ->
     Unmarshal dec cread grow fuel (cs, t)
       = Some (k, (if k <? 32 then [] else ver),
               Some (if k <? 32 then end_err t k EEOF else end_err t (k - 32) EEOF), None, ([], t)).
@@ -299,7 +299,7 @@ Section Codec.
     bytes_ok ver -> bytes_ok (enc m) -> zlen (enc m) < 2 ^ 63 - 32 ->
     0 <= k < 32 + zlen (enc m) ->
     chunks_ok cs -> concat cs = firstn (Z.to_nat k) (frame ver (enc m)) ->
-    (length (concat cs) + 2 <= fuel)%nat ->
+    (length cs + length (concat cs) + 2 <= fuel)%nat ->
     Unmarshal dec cread grow fuel (cs, t)
       = Some (k, (if k <? 32 then [] else ver),
               Some (if (k =? 0) || (k =? 32) then EEOF else EUnexpectedEOF), None, ([], t)).
@@ -316,7 +316,7 @@ Section Codec.
     bytes_ok ver -> bytes_ok (enc m) -> zlen (enc m) < 2 ^ 63 - 32 ->
     0 <= k < 32 + zlen (enc m) ->
     chunks_ok cs -> concat cs = firstn (Z.to_nat k) (frame ver (enc m)) ->
-    (length (concat cs) + 2 <= fuel)%nat ->
+    (length cs + length (concat cs) + 2 <= fuel)%nat ->
     Unmarshal dec cread grow fuel (cs, t)
       = Some (k, (if k <? 32 then [] else ver), Some (t_err t), None, ([], t)).
   Proof.
@@ -329,7 +329,7 @@ Section Codec.
   Theorem Unmarshal_hsize cs t fuel :
     chunks_ok cs -> bytes_ok (concat cs) -> zlen (concat cs) < 2 ^ 63 ->
     32 <= zlen (concat cs) -> le_val (firstn 8 (skipn 16 (concat cs))) <> 32 ->
-    (length (concat cs) + 2 <= fuel)%nat ->
+    (length cs + length (concat cs) + 2 <= fuel)%nat ->
     exists cs',
       Unmarshal dec cread grow fuel (cs, t)
         = Some (32, strip_nul (firstn 16 (concat cs)), Some EInvalidHeaderSize, None, (cs', t))
@@ -347,7 +347,7 @@ Section Codec.
     chunks_ok cs -> bytes_ok (concat cs) -> zlen (concat cs) < 2 ^ 63 ->
     32 <= zlen (concat cs) -> le_val (firstn 8 (skipn 16 (concat cs))) = 32 ->
     2 ^ 63 <= le_val (firstn 8 (skipn 24 (concat cs))) ->
-    (length (concat cs) + 2 <= fuel)%nat ->
+    (length cs + length (concat cs) + 2 <= fuel)%nat ->
     exists cs',
       Unmarshal dec cread grow fuel (cs, t)
         = Some (32, strip_nul (firstn 16 (concat cs)), Some EInvalidBodySize, None, (cs', t))
@@ -365,7 +365,7 @@ Section Codec.
       terminal): Unmarshal returns, and a success means a complete frame. *)
   Theorem Unmarshal_total cs t fuel :
     chunks_ok cs -> bytes_ok (concat cs) -> zlen (concat cs) < 2 ^ 63 ->
-    (length (concat cs) + 2 <= fuel)%nat ->
+    (length cs + length (concat cs) + 2 <= fuel)%nat ->
     exists n ver err m cs',
       Unmarshal dec cread grow fuel (cs, t) = Some (n, ver, err, m, (cs', t))
       /\ 0 <= n <= zlen (concat cs)
